@@ -165,6 +165,18 @@ def e_tone(c):
     gains = [gain(kk) for kk in ks]
     check(all(gg <= 1 + 1e-9 for gg in gains), "tone-amplified", f"gains {gains}")
     check(all(g2 <= g1 + 1e-6 for g1, g2 in zip(gains, gains[1:])), "attenuation-not-monotone", f"bins {ks} gains {gains}")
+    # the same numeric cutoff after the sampling rate was re-configured in this process: the -6 dB point stays at the cutoff
+    for ratio in (2.0, 0.5):
+        kc2 = kc / ratio
+        if abs(kc2 - round(kc2)) > 1e-9 or not (0.012 * N <= kc2 <= 0.44 * N) or kc2 < 16:
+            continue
+        kc2 = int(round(kc2))
+        gv(sps=sps, fs=fs * ratio)
+        g2 = gain(kc2)
+        gv(sps=sps, fs=fs)
+        check(abs(-20 * np.log10(g2) - 6.0206) <= 0.05, "cutoff-follows-stale-sampling-rate",
+              f"{c['which']} order {order}: cutoff {BW:.4g} Hz, fs {fs:.4g} -> {fs * ratio:.4g}: {-20 * np.log10(g2):.4f} dB at the cutoff bin {kc2}/{N}")
+        break
     # zero delay: symmetric pulse on an odd-length record
     M = N if N % 2 else N - 1
     ctr = (M - 1) // 2
